@@ -223,7 +223,9 @@ func (b *c02Builder) stmt(n *c02Node) []zn.Stmt {
 	case "R":
 		return []zn.Stmt{zn.Return{Val: b.num()}}
 	case "E":
-		return []zn.Stmt{zn.ExprStmt{E: b.num()}}
+		// an expression statement followed by a definition: a definition is hoisted, it is not
+		// a statement that runs, so the expression stays the block's / program's final expression
+		return []zn.Stmt{zn.ExprStmt{E: b.num()}, zn.Func{Name: fmt.Sprintf("定%d", b.id()), Body: []zn.Stmt{zn.Return{Val: zn.Num{Lit: "0"}}}}}
 	case "B":
 		return []zn.Stmt{zn.Break{}}
 	case "C":
@@ -254,6 +256,7 @@ func (b *c02Builder) stmt(n *c02Node) []zn.Stmt {
 		dict := zn.Dict{Pairs: []zn.DictPair{{Key: "乙", Val: zn.Num{Lit: "1"}}, {Key: "甲", Val: zn.Num{Lit: "2"}}}}
 		var it zn.Iter
 		var hdr zn.Stmt
+		var extraHdr []zn.Stmt
 		switch n.iter {
 		case 0:
 			it = zn.Iter{Vars: []string{vv}, Target: list}
@@ -261,6 +264,9 @@ func (b *c02Builder) stmt(n *c02Node) []zn.Stmt {
 		case 1:
 			it = zn.Iter{Vars: []string{kv, vv}, Target: list}
 			hdr = b.trace(zn.Var{Name: kv}, zn.Var{Name: vv})
+			// the index variable is this pass's own number: changing it in place must not
+			// reach the next pass, an enclosing loop or a later loop
+			extraHdr = []zn.Stmt{zn.ExprStmt{E: zn.MCall{Root: zn.Var{Name: kv}, Chain: []zn.Call{{Name: "自增", Args: []zn.Expr{zn.Num{Lit: "5"}}}}}}, b.trace(zn.Var{Name: kv})}
 		case 2:
 			it = zn.Iter{Vars: []string{kv, vv}, Target: dict}
 			hdr = b.trace(zn.Var{Name: kv}, zn.Var{Name: vv})
@@ -271,7 +277,7 @@ func (b *c02Builder) stmt(n *c02Node) []zn.Stmt {
 			it = zn.Iter{Vars: []string{vv}, Target: zn.List{}}
 			hdr = b.trace(zn.Var{Name: vv})
 		}
-		it.Body = append([]zn.Stmt{hdr}, b.body(n.bodies[0], true)...)
+		it.Body = append(append([]zn.Stmt{hdr}, extraHdr...), b.body(n.bodies[0], true)...)
 		return []zn.Stmt{it}
 	}
 	panic("c02: kind")
@@ -354,7 +360,7 @@ func init() {
 	mc.Register(&mc.Check{
 		ID:    "C02",
 		Level: "exploration",
-		Rule:  "E1 exhaustive by rank/unrank: every statement tree with <= k statement nodes and nesting <= 3 over {输出, expression, 结束循环, 继续循环 (inside loops only), 如果 (1/2/3 branches, every truth assignment), 每当 (2 passes via a dedicated counter), 遍历 over [10,20] with 1/2/0 variables, over a dictionary with 2 variables, over an empty list}; a trace statement is planted before every statement and at the end of every block; each tree is run as program body and as method body. Distinct by construction; non-trivial = contains at least one compound statement.",
+		Rule:  "E1 exhaustive by rank/unrank: every statement tree with <= k statement nodes and nesting <= 3 over {输出, expression, 结束循环, 继续循环 (inside loops only), 如果 (1/2/3 branches, every truth assignment), 每当 (2 passes via a dedicated counter), 遍历 over [10,20] with 1/2/0 variables, over a dictionary with 2 variables, over an empty list}; every expression statement is followed by a method definition (hoisted, so the expression stays final); the two-variable list loop changes its index variable in place (自增) and traces it; a trace statement is planted before every statement and at the end of every block; each tree is run as program body and as method body. Distinct by construction; non-trivial = contains at least one compound statement.",
 		Assumptions: []string{
 			"reference interpreter written from manual ch.7/8 is the oracle (result + ordered trace)",
 			"the program result is compared only when the statement defines it (an 输出 ran, or the last top-level statement is an expression)",
